@@ -16,6 +16,7 @@ CONSTANTS
     MaxIap = {maxia}
     MaxIav = {maxiv}
     MaxSur = 0
+    MaxRo = 0
     MaxComps = {maxc}
     Fns = {fns}
     UseData = FALSE
